@@ -172,6 +172,17 @@ PROPS["C15"] = {
     "level_note": BUF_NOTE, "assumptions": ["temp files are recognised by multibuf's 'temp-multibuf-' prefix in the process's private TMPDIR"],
 }
 
+PROPS["C09"] = {
+    "harness": "racesim", "test": "TestC09", "quick_s": 40, "thorough_s": 1200, "batch": 25, "race": True, "shrinktime": "60s", "probe_runs": 30,
+    "rule": "one evaluation = one simulated run under the Go race detector: a drawn target (connlimit, ratelimit, roundrobin, rebalancer, cbreaker, RTMetrics used directly, trace, or a stack of 2-6 middlewares over a rebalancer), "
+            "2-6 pre-spawned tasks with 1-5 operations each (ServeHTTP from several sources with scripted statuses; UpsertServer/RemoveServer/ServerWeight/Servers/NextServer; Record and every RTMetrics read), fine scheduling at every mutex operation, "
+            "clock ticks between steps; oracle = no new race report; non-trivial = at least two task switches; distinct = run digest (exact schedule)",
+    "technique": "deterministic simulation under the race detector: seeded choice of the order of critical sections with the scheduler's own task->coordinator synchronisation hidden from the detector, so that a report means two accesses unordered by oxy's own locks in a legal lock order; reports are per run and replayable",
+    "level_text": "seeded search over lock orders and operation mixes; a race is only found if both accesses execute in the sampled run; sampled, not exhaustive",
+    "level_note": "trusted: Go race detector (runtime.RaceDisable semantics, GORACE flags), simrt's hand-off protocol (the coordinator never acquires from a task), the lock-free clock shim added to the scratch copy; the number of reports of one run may vary by one, the verdict is 'at least one'; CircuitBreaker.String() is not called concurrently (log helper, not an inspection call)",
+    "assumptions": ["'no counter update is lost' follows from race freedom (DRF-SC); the serialised simulator cannot lose an update physically", "the trace writer is the caller's and is mutex-protected"],
+}
+
 PENDING = "check not built yet in this session (planned, see DESIGN.md section 4); not claimed until its harness exists"
 NOT_APPLICABLE = {pid: PENDING for pid in ["C%02d" % i for i in range(1, 21)]}
 NOT_APPLICABLE["C19"] = ("pure function of one request's RemoteAddr/Host/header to a token: no schedule, clock, fault, I/O or multi-party behaviour for a "
